@@ -121,7 +121,9 @@ TRUSTED = ['PyMatching Matching(H, spacelike_weights=w).decode(s): minimum-weigh
            'iteration order fixed for one set object) as transcribed',
            'SweepDecoder3D / RotatedSweepDecoder3D .decode return a Z-only vector of length 2n (black box here; C10)',
            'XCubeMatchingDecoder: CPython iteration order of a set of at most four ints below 8 is ascending '
-           '(list(nodes_in_component)[0] becomes plane_proj); set.pop() order does not change the set of popped nodes; '
+           '(list(nodes_in_component)[0] becomes plane_proj; sides <= 4), for a side >= 5 the list(set) orders CPython '
+           'produced are recorded and handed to the model (stream xcube-long-sides; the model and its theorems are '
+           'parametric in that order); set.pop() order does not change the set of popped nodes; '
            'hand-written lattice models of XCubeCode / Toric2DCode (tied to the code by C01/C02 and by the matrices '
            'the spies record)']
 ASSUMPTIONS = ['syndromes are syndromes of Pauli errors (s = H e); parity-check entries are 0/1',
